@@ -366,43 +366,83 @@ def allProgs (_ : Unit) : List Prog :=
   let es := level2 () ++ level3 1
   (es.zipIdx).map fun (e, i) => { id := i, e := e, v := classify Γ e }
 
-/-- thorough: every one-operator program; every nested program that the model accepts; a quarter of
-the nested ones it rejects as a misuse and a sixteenth of the nested ill-sorted ones (by hash + seed).
-quick: every one-operator program that the model accepts or rejects as a misuse; one program (chosen
-by the seed) from every other stratum (depth, operator, verdict class, operand kinds), except that only
-a quarter of the nested ill-sorted strata are visited per seed. -/
-def select (thorough : Bool) (seed : Nat) (all : Bool := false) : List Prog :=
+/-! ### Near-miss variants of accepted nested programs
+
+The property speaks of a misuse and "the twin that differs only in having matching tags".  Read
+backwards: from every *accepted* nested program, replace the variables of one operand by their
+sibling of another tag (`v1 ↔ v2`, `p1 ↔ p2`, `c1 ↔ c2`, `c4 ↔ c5`, `m12 ↔ m21`, `mp1 ↔ mp2`,
+`s ↔ a`, …).  These are the programs that start to compile when the *result type* of an API entry
+loses or widens its tag (e.g. `c4.add(&c5.sub(&c5))` when `<Color<[u8;N],Sp> as Affine>::Diff` forgets `Sp`). -/
+
+def sibling : Nat → Option Nat
+  | 0 => some 2 | 2 => some 0 | 1 => some 0
+  | 3 => some 4 | 4 => some 3 | 6 => some 3 | 5 => some 3
+  | 7 => some 8 | 8 => some 7 | 9 => some 7
+  | 10 => some 11 | 11 => some 10
+  | 12 => some 13 | 13 => some 12 | 14 => some 12
+  | 15 => some 23 | 23 => some 15
+  | 16 => some 17 | 17 => some 16 | 18 => some 16
+  | 19 => some 20 | 20 => some 19
+  | 21 => some 24 | 24 => some 21 | 22 => some 16
+  | _ => none
+
+def substAll : Expr → Expr
+  | .var i => .var ((sibling i).getD i)
+  | .un o a => .un o (substAll a)
+  | .bin o a b => .bin o (substAll a) (substAll b)
+  | .ter o a b c => .ter o (substAll a) (substAll b) (substAll c)
+
+def variantsOf : Expr → List Expr
+  | .var _ => []
+  | .un o a => [.un o (substAll a)]
+  | .bin o a b => [.bin o (substAll a) b, .bin o a (substAll b)]
+  | .ter o a b c => [.ter o (substAll a) b c, .ter o a (substAll b) c, .ter o a b (substAll c)]
+
+/-- Variants of all accepted nested programs (each once). -/
+def nearMisses (ps : List Prog) : List Prog := Id.run do
+  let mut seen : Std.HashSet String := {}
+  let mut out : Array Prog := #[]
+  let mut next := 1000000
+  for p in ps do
+    match p.v with
+    | .accept _ =>
+      if p.e.depth > 2 then
+        for e in variantsOf p.e do
+          let k := encExpr e
+          if !seen.contains k then
+            seen := seen.insert k
+            out := out.push { id := next, e := e, v := classify Γ e }
+            next := next + 1
+    | _ => pure ()
+  return out.toList
+
+/-- Keep the first program of every expression. -/
+def dedupe (ps : List Prog) : List Prog := Id.run do
+  let mut seen : Std.HashSet String := {}
+  let mut out : Array Prog := #[]
+  for p in ps do
+    let k := encExpr p.e
+    if !seen.contains k then
+      seen := seen.insert k
+      out := out.push p
+  return out.toList
+
+/-- thorough: the complete enumeration (every one-operator program, every nested program, every
+near-miss variant).
+quick: every one-operator program; every nested program that the model accepts; every near-miss variant;
+a quarter of the other nested programs it rejects as a misuse and a sixteenth of the nested ill-sorted
+ones (by hash + seed). -/
+def select (thorough : Bool) (seed : Nat) : List Prog :=
   let ps := allProgs ()
-  if all then ps
-  else if thorough then
-    ps.filter fun p =>
+  let near := nearMisses ps
+  if thorough then dedupe (ps ++ near)
+  else
+    dedupe <| near ++ ps.filter fun p =>
       p.e.depth ≤ 2 ||
       (match p.v with
        | .accept _ => true
        | .misuse _ => ((fnv (encExpr p.e)).toNat + seed) % 4 == 0
        | .other => ((fnv (encExpr p.e)).toNat + seed) % 16 == 0)
-  else Id.run do
-    let mut groups : Std.HashMap String (Array Prog) := {}
-    let mut order : Array String := #[]
-    let mut res : Array Prog := #[]
-    for p in ps do
-      let interesting := match p.v with | .other => false | _ => true
-      if p.e.depth ≤ 2 && interesting then
-        res := res.push p
-      else
-        let k := stratum p ++ "/" ++ kindSig p
-        if !groups.contains k then order := order.push k
-        groups := groups.alter k fun
-          | some g => some (g.push p)
-          | none => some #[p]
-    for k in order do
-      let g := groups[k]!
-      let interesting := match g[0]!.v with | .other => false | _ => true
-      -- ill-sorted strata: one stratum in four per seed
-      let skip := !interesting && ((fnv k).toNat + seed) % 4 != 0
-      if !skip then
-        res := res.push g[(seed * 7919 + (fnv k).toNat) % g.size]!
-    return res.toList
 
 def encodeSpaces (s : String) : String := s.replace " " "~"
 def decodeSpaces (s : String) : String := s.replace "~" " "
@@ -416,7 +456,8 @@ def progLine (p : Prog) : String :=
 /-- rustc error codes that are type / trait / visibility errors. -/
 def typeErrorCodes : List String :=
   ["E0277", "E0308", "E0369", "E0599", "E0271", "E0282", "E0283", "E0600", "E0614", "E0423",
-   "E0616", "E0609", "E0610", "E0061", "E0107", "E0284", "E0631", "E0603", "E0618", "E0605", "E0368", "E0067"]
+   "E0616", "E0609", "E0610", "E0061", "E0107", "E0284", "E0631", "E0603", "E0618", "E0605", "E0368", "E0067",
+   "E0080"]   -- E0080: a `const { assert!(..) }` of the crate failed (post-monomorphisation)
 
 def handle (case impl : List String) : Retro.Drv.Verdict :=
   match case with
@@ -442,7 +483,8 @@ def handle (case impl : List String) : Retro.Drv.Verdict :=
           Verdict.mkDiff s!"model knows no such operation but rustc accepts: {rsExpr e}" (tags ++ ["rustc-ok"]).reverse
       | "err" :: codes =>
         let typeish := !codes.isEmpty && codes.all fun c => typeErrorCodes.contains c
-        let tags := tags ++ [if typeish then "rustc-type-error" else "rustc-other-error"]
+        let tags := tags ++ [if !typeish then "rustc-other-error"
+                             else if codes.contains "E0080" then "rustc-const-assert" else "rustc-type-error"]
         match v with
         | .accept t =>
           Verdict.mkDiff s!"model accepts ({rsTy t}) but rustc rejects with {codes}: {rsExpr e}" tags.reverse
@@ -453,10 +495,10 @@ def handle (case impl : List String) : Retro.Drv.Verdict :=
   | _ => bad "unknown op"
 
 def emit (args : List String) : IO UInt32 := do
-  let thorough := args.getD 0 "quick" == "thorough"
+  let thorough := args.getD 0 "quick" == "thorough" || args.getD 0 "quick" == "all"
   let seed := (args.getD 1 "1").toNat?.getD 1
   let out ← IO.getStdout
-  for p in select thorough seed (args.getD 0 "quick" == "all") do
+  for p in select thorough seed do
     out.putStrLn (progLine p)
   return 0
 
@@ -484,7 +526,7 @@ def stats : IO UInt32 := do
   let cnt (f : Prog → Bool) := (ps.filter f).length
   IO.println s!"all {ps.length} depth2 {cnt (·.e.depth ≤ 2)} accept {cnt fun p => match p.v with | .accept _ => true | _ => false} misuse {cnt fun p => match p.v with | .misuse _ => true | _ => false} other {cnt (·.v == .other)}"
   IO.println s!"reps {(representatives 1).length}"
-  IO.println s!"quick {(select false 1).length} thorough {(select true 1).length}"
+  IO.println s!"near-misses {(nearMisses ps).length} quick {(select false 1).length} thorough {(select true 1).length}"
   return 0
 
 def main (args : List String) : IO UInt32 :=
